@@ -1,11 +1,11 @@
 #!/bin/sh
-# Build the framework offline from files on disk: both profiles of the vcheck engine, the
+# Build the framework offline from files on disk: the three profiles of the vcheck engine (plain, checked, lto), the
 # sanitizer-coverage trace binary (nightly), then the reference self-test (ACVP vectors).
 # Build output goes to /verif/work (git-ignored); nothing is kept under /tmp.
 set -e
 cd "$(dirname "$0")"
 export CARGO_NET_OFFLINE=true
 mkdir -p work/reports evidence replays
-( cd harness && CARGO_TARGET_DIR="$(pwd)/../work/target" cargo build --profile plain --bin vcheck && CARGO_TARGET_DIR="$(pwd)/../work/target" cargo build --profile checked --bin vcheck )
+( cd harness && CARGO_TARGET_DIR="$(pwd)/../work/target" cargo build --profile plain --bin vcheck && CARGO_TARGET_DIR="$(pwd)/../work/target" cargo build --profile checked --bin vcheck && CARGO_TARGET_DIR="$(pwd)/../work/target" cargo build --profile ltoplain --bin vcheck --no-default-features )
 ( cd cttrace && RUSTFLAGS="-Cpasses=sancov-module -Cllvm-args=-sanitizer-coverage-level=3 -Cllvm-args=-sanitizer-coverage-trace-pc-guard -Cllvm-args=-sanitizer-coverage-trace-loads -Cllvm-args=-sanitizer-coverage-trace-stores -Cllvm-args=-sanitizer-coverage-pc-table" CARGO_TARGET_DIR="$(pwd)/../work/target-sancov" cargo +nightly build --release --target x86_64-unknown-linux-gnu )
 VERIF_ROOT="$(pwd)" work/target/plain/vcheck selftest
